@@ -410,7 +410,16 @@ pub fn run(t: &Tables, seeds: &[String], dir: &str, nshards: usize, seed: u64, c
             // choose the successor: prefer special moves and (for repetition histories) already seen keys
             let specials: Vec<usize> = (0..moves.len()).filter(|&j| is_special(&board, &moves[j])).collect();
             let repeats: Vec<usize> = (0..moves.len()).filter(|&j| hist_keys.contains(&moves[j].zobrist_key)).collect();
-            let j = if !repeats.is_empty() && rng.gen_bool(cfg.repeat_bias) {
+            // checking moves are over-sampled: positions in check (evasions, double checks, discovered checks) are where
+            // generators go wrong
+            let checks: Vec<usize> = if rng.gen_bool(0.3) {
+                (0..moves.len()).filter(|&j| is_check(&moves[j], moves[j].to_move)).collect()
+            } else {
+                vec![]
+            };
+            let j = if !checks.is_empty() {
+                checks[rng.gen_range(0..checks.len())]
+            } else if !repeats.is_empty() && rng.gen_bool(cfg.repeat_bias) {
                 repeats[rng.gen_range(0..repeats.len())]
             } else if !specials.is_empty() && rng.gen_bool(0.35) {
                 specials[rng.gen_range(0..specials.len())]
